@@ -149,7 +149,68 @@ def run(ctx):
         ctx.nontriv(c["origin"])
     depcheck.run_shards(ctx, real, "real", size=2)
     memory_cycles(ctx)
+    recurrences(ctx)
     parallel_cycles(ctx)
+
+
+def recurrences(ctx):
+    """a[i+1] = f(a[i]): the value is carried around the loop through MEMORY and the pointer is bumped in between, the reload's
+    displacement compensating the bump -- the store/reload pair is linked only if the tracked register change (+K) is accounted for
+    EXACTLY ONCE, wherever the bump stands (before the store, between store and reload, at the loop end).  By construction the
+    store and the reload lie on a common loop-carried cycle."""
+    import c06
+    import models
+    avail = models.nonempty_archs()
+    n = 0
+    for i in range(ctx.n(18, 200)):
+        isa = "x86" if i % 3 else "aarch64"
+        arch = [m for m in (c06.X86_MODELS if isa == "x86" else c06.A64_MODELS) if m in avail][0]
+        pipe = deps.Pipeline(ctx, isa, arch=arch)
+        rng = ctx.rng
+        D = rng.choice([0, 8, 16, 32])
+        K = rng.choice([8, 16])
+        shape = rng.choice(["bump-first", "bump-between", "bump-last"])
+        if isa == "x86":
+            B, V = rng.sample(["rbx", "rax", "rcx", "rdi"], 2)
+            op = lambda d: ("%d(%%%s)" % (d, B)) if d else "(%%%s)" % B                          # noqa
+            st = lambda d: "movq %%%s, %s" % (V, op(d))                                          # noqa
+            ld = lambda d: "movq %s, %%%s" % (op(d), V)                                          # noqa
+            use = "addq %%rsi, %%%s" % V
+            bump = rng.choice(["addq $%d, %%%s" % (K, B), "subq $%d, %%%s" % (-K, B)])       # (lea is not a tracked change: no claim there)
+            tail = ["cmpq %rdx, %" + B, "jne .L1"]
+        else:
+            B, V = rng.sample(["x1", "x2", "x3", "x4"], 2)
+            op = lambda d: ("[%s, #%d]" % (B, d)) if d else "[%s]" % B                            # noqa
+            st = lambda d: "str %s, %s" % (V, op(d))                                             # noqa
+            ld = lambda d: "ldr %s, %s" % (V, op(d))                                             # noqa
+            use = "add %s, %s, x12" % (V, V)
+            bump = "add %s, %s, #%d" % (B, B, K)
+            tail = ["cmp x9, " + B, "b.ne .L1"]
+        if shape == "bump-first":       # bump ; reload of what the previous iteration stored ; use ; store
+            body = [bump, ld(D - K), use, st(D)]
+        elif shape == "bump-between":   # store ; bump ; reload of the cell just stored (same iteration) ; use (feeds the next store)
+            body = [st(D), bump, ld(D - K), use]
+        else:                           # reload ; use ; store ; bump
+            body = [ld(D - K), use, st(D), bump]
+        body += tail[:rng.choice([0, 2])]
+        text = "\n".join(body) + "\n"
+        rep = {"isa": isa, "arch": arch, "text": text, "kind": "memory"}
+        try:
+            case, kernel, dg = deps.build_case(pipe, text, False)
+        except Exception as e:  # noqa
+            ctx.violation("lcd-raises", "recurrence kernel on %s: %r" % (arch, e), rep)
+            continue
+        ctx.count()
+        ctx.nontriv(text)
+        n += 1
+        s_no = body.index(st(D)) + 1
+        l_no = body.index(ld(D - K)) + 1
+        both = [e for e in case["lcd"] if s_no in [m for m, _ in e[1]] and l_no in [m for m, _ in e[1]]]
+        if not both:
+            ctx.violation("lcd-memory-cycle-missing", "%s, %s: the value stored by line %d is reloaded by line %d (the bump of %d is compensated by the "
+                          "displacement) and feeds the next store, but no reported loop-carried dependency contains both: %s; reported member sets %s"
+                          % (arch, shape, s_no, l_no, K, text.replace("\n", " ; "), [[m for m, _ in e[1]] for e in case["lcd"]][:4]), rep)
+    ctx.coverage["memory_recurrence_kernels"] = n
 
 
 X86_BODIES = {
